@@ -252,11 +252,11 @@ def make_jobs(pid, prop, tier, seed_base, bins, bdir, only=None):
             stats = os.path.join(bdir, "stats", tag)
             shutil.rmtree(stats, ignore_errors=True)
             cmd = [binp, "-test.run", "^" + test + "$", "-test.count=1", "-test.v", "-test.timeout", "300s",
-                   "-rapid.failfile=" + os.path.join(rdir, fn), "-rapid.checks=1", "-rapid.seed=1", "-rapid.nofailfile"]
+                   "-rapid.failfile=" + os.path.join(rdir, fn), "-rapid.checks=0", "-rapid.seed=1", "-rapid.nofailfile"]
             env = {"VERIF_STATS_DIR": "", "VERIF_KNOWN": known, "VERIF_TIER": tier, "VERIF_SEED_EFFECTIVE": "1",
                    "VERIF_REPO": REPO, "VERIF_SCALE": "1", "VERIF_CHECKS": "1"}
             jobs.append({"unit": uname, "test": test, "shard": 0, "seed": 0, "cmd": cmd, "cwd": cwd, "stats": stats,
-                         "env": env, "timeout": 300, "checks": 1, "rapid": True, "race": race, "regress": os.path.join(rdir, fn)})
+                         "env": env, "timeout": 300, "checks": 0, "rapid": True, "race": race, "regress": os.path.join(rdir, fn)})
     return jobs
 
 
